@@ -1195,6 +1195,11 @@ func (e *Env) evalCall(n *ECall) SVal {
 			e.fail("invariant %s takes one argument", inv.Name)
 		}
 		a := e.eval(n.Args[0])
+		if sp := e.scopeOf(inv.Pkg); sp != nil && sp != e.pkgScope() {
+			saved := e.pkg
+			e.pkg = sp
+			defer func() { e.pkg = saved }()
+		}
 		return e.withVars(map[string]SVal{inv.Var: a}, func() SVal { return e.eval(inv.Body) })
 	}
 	e.fail("unknown function %s in contract", id.Name)
@@ -1330,14 +1335,33 @@ func (e *Env) specArgTerms(sf *SpecFunc, vals []SVal) []string {
 	return ts
 }
 
+// scopeOf returns the types.Package in which the names of a contract item are resolved.
+func (e *Env) scopeOf(pkgPath string) *types.Package {
+	if pkgPath == "" {
+		return nil
+	}
+	if tp, ok := e.vc.w.tpkgs[pkgPath]; ok && tp.Types != nil {
+		return tp.Types
+	}
+	return nil
+}
+
 func (e *Env) applySpecFunc(sf *SpecFunc, args []Expr) SVal {
 	vc := e.vc
 	if len(args) != len(sf.Params) {
 		e.fail("spec function %s expects %d arguments", sf.Name, len(sf.Params))
 	}
 	var vals []SVal
-	for i, a := range args {
-		v := e.eval(a)
+	for _, a := range args {
+		vals = append(vals, e.eval(a)) // arguments: caller's scope
+	}
+	if sp := e.scopeOf(sf.Pkg); sp != nil && sp != e.pkgScope() {
+		saved := e.pkg
+		e.pkg = sp
+		defer func() { e.pkg = saved }()
+	}
+	for i := range args {
+		v := vals[i]
 		if v.lval {
 			if _, pt := e.sortOfTypeString(sf.Params[i].Type); pt != nil {
 				if _, isS := isStruct(pt); isS {
@@ -1345,7 +1369,7 @@ func (e *Env) applySpecFunc(sf *SpecFunc, args []Expr) SVal {
 				}
 			}
 		}
-		vals = append(vals, v)
+		vals[i] = v
 	}
 	retSort, retTyp := e.sortOfTypeString(sf.Ret)
 	bind := func() map[string]SVal {
@@ -1441,6 +1465,11 @@ func (e *Env) lemmaInstance(lm *Lemma, args []Expr) string {
 			v.typ = pt
 		}
 		m[p.Name] = v
+	}
+	if sp := e.scopeOf(lm.Pkg); sp != nil && sp != e.pkgScope() {
+		savedPkg := e.pkg
+		e.pkg = sp
+		defer func() { e.pkg = savedPkg }()
 	}
 	saved, savedVars := e.noFnNames, e.vars
 	e.noFnNames = true
